@@ -1158,7 +1158,9 @@ def rules(tier):
             ('C05.R13', r13_memo), ('C05.R14', r14_consumers_read_only),
             ('C05.R15', r15_layout_siblings_agree), ('C05.R16', r16_nonempty_is_not_long_enough),
             # C05-ca: second pass without --prefixcount: the raw '6 password' line is segmented
-            ('C05.R17', _shared_rule('c19', 'r1_three_passes'))]
+            ('C05.R17', _shared_rule('c19', 'r1_three_passes')),
+            # C05-da: found_providers, found_emails = email_detection(..) - the e-mail and provider counters swap contents
+            ('C05.R18', _shared_rule('plumbing', 'unpack_order'))]
 
 
 META = {
